@@ -72,7 +72,12 @@ Live(s, i, kind) == i \in DOMAIN s.slots /\ s.slots[i].k = kind
 SortedBy(s, regs) == \A i \in 1 .. Len(regs) - 1 : s.maps[regs[i]].start < s.maps[regs[i + 1]].start
 
 Apply(s, op, a) ==
-  CASE op = "create" ->        \* a new mapping, wrapped into a region handle
+  CASE op = "create" /\ a.kind \in {"failed_build", "failed_wrap"} ->
+         \* a creation request that is refused (file range past the end of the file; guest range past 2^64): nothing may
+         \* stay mapped and no handle exists - the mapping is recorded so that the observer keeps watching its file
+         Res([s EXCEPT !.maps = Append(s.maps, [kind |-> a.kind, mapped |-> FALSE, unmaps |-> 0, start |-> Len(s.maps) + 1]),
+                       !.rcR = Append(s.rcR, 0)], [k |-> "err"])
+    [] op = "create" ->        \* a new mapping, wrapped into a region handle
          LET m == Len(s.maps) + 1
              s1 == [s EXCEPT !.maps = Append(s.maps, [kind |-> a.kind, mapped |-> TRUE, unmaps |-> 0, start |-> m]),
                              !.rcR = Append(s.rcR, 1)] IN
@@ -160,6 +165,8 @@ MappedIffReachable == \A m \in DOMAIN st.maps : st.maps[m].kind = "owned" => (st
 UnmapOnce == \A m \in DOMAIN st.maps : st.maps[m].unmaps = (IF st.maps[m].kind = "owned" /\ ~st.maps[m].mapped THEN 1 ELSE 0)
 \* a mapping provided from outside is never unmapped by the library
 RawNeverUnmapped == \A m \in DOMAIN st.maps : st.maps[m].kind = "raw" => st.maps[m].mapped /\ st.maps[m].unmaps = 0
+\* a refused creation leaves nothing mapped, ever
+FailedNeverMapped == \A m \in DOMAIN st.maps : st.maps[m].kind \in {"failed_build", "failed_wrap"} => ~st.maps[m].mapped /\ m \notin Reachable(st)
 \* no live handle points at unmapped memory
 NoDangling == \A m \in Reachable(st) : st.maps[m].mapped
 View == st
